@@ -85,6 +85,93 @@ pub fn merkle_root(list: &[(RH, u64)]) -> RH {
     level[0].0
 }
 
+/// Which branches of the fan-out rule an input drives (all levels of the tree summed).
+#[derive(Default, Clone, Debug, PartialEq)]
+pub struct MerkleTrace {
+    /// groups closed because the child's last word is 0 mod 4 and >= 2 earlier children were in the group
+    pub cut_by_hash: u64,
+    /// children whose last word is 0 mod 4 but which could not close the group (< 2 earlier children)
+    pub cut_suppressed_by_minimum: u64,
+    /// groups closed because they already held 8 earlier children
+    pub cut_forced_at_nine: u64,
+    /// groups closed because the level ended
+    pub cut_by_end_of_level: u64,
+    pub levels: u64,
+    pub widest_group: u64,
+}
+
+/// Same construction as [`merkle_root`], written separately and annotated (vacuity counters).
+pub fn merkle_root_traced(list: &[(RH, u64)]) -> (RH, MerkleTrace) {
+    let mut tr = MerkleTrace::default();
+    if list.is_empty() {
+        return (ZERO, tr);
+    }
+    let mut level: Vec<(RH, u64)> = list.to_vec();
+    while level.len() > 1 {
+        tr.levels += 1;
+        let mut next: Vec<(RH, u64)> = Vec::new();
+        let mut group: Vec<(RH, u64)> = Vec::new();
+        let n = level.len();
+        for (idx, child) in level.iter().enumerate() {
+            let earlier = group.len();
+            group.push(*child);
+            let zero_mod_4 = last_word(&child.0) & 3 == 0;
+            let close = if earlier >= 2 && zero_mod_4 {
+                tr.cut_by_hash += 1;
+                true
+            } else if earlier >= 8 {
+                tr.cut_forced_at_nine += 1;
+                true
+            } else if idx + 1 == n {
+                tr.cut_by_end_of_level += 1;
+                true
+            } else {
+                if zero_mod_4 {
+                    tr.cut_suppressed_by_minimum += 1;
+                }
+                false
+            };
+            if close {
+                tr.widest_group = tr.widest_group.max(group.len() as u64);
+                let mut text = Vec::new();
+                let mut total = 0u64;
+                for (h, l) in &group {
+                    text.extend_from_slice(hex(h).as_bytes());
+                    text.extend_from_slice(format!(" : {l}\n").as_bytes());
+                    total += *l;
+                }
+                next.push((*blake3::keyed_hash(&INTERNAL_NODE_KEY, &text).as_bytes(), total));
+                group.clear();
+            }
+        }
+        level = next;
+    }
+    (level[0].0, tr)
+}
+
+/// URL-safe base64 without padding (RFC 4648 section 5), written out by hand.
+pub fn base64url_nopad(bytes: &[u8]) -> String {
+    const A: &[u8; 64] = b"ABCDEFGHIJKLMNOPQRSTUVWXYZabcdefghijklmnopqrstuvwxyz0123456789-_";
+    let mut s = String::new();
+    for c in bytes.chunks(3) {
+        let v = (c[0] as u32) << 16 | (*c.get(1).unwrap_or(&0) as u32) << 8 | *c.get(2).unwrap_or(&0) as u32;
+        s.push(A[(v >> 18) as usize & 63] as char);
+        s.push(A[(v >> 12) as usize & 63] as char);
+        if c.len() > 1 {
+            s.push(A[(v >> 6) as usize & 63] as char);
+        }
+        if c.len() > 2 {
+            s.push(A[v as usize & 63] as char);
+        }
+    }
+    s
+}
+
+/// The 32 bytes of a hash as they are laid out for the byte-oriented text form (the four words little-endian).
+pub fn base64(h: &RH) -> String {
+    base64url_nopad(h)
+}
+
 pub fn xorb_hash(list: &[(RH, u64)]) -> RH {
     merkle_root(list)
 }
@@ -158,6 +245,54 @@ pub fn chunk_ends(data: &[u8], target: usize) -> Vec<usize> {
         start = e;
     }
     ends
+}
+
+/// Why a reference chunk ended where it did.
+#[derive(Clone, Copy, PartialEq, Eq, Debug)]
+pub enum CutKind {
+    /// gear match before the maximum
+    Match,
+    /// gear match on exactly the byte that also reaches the maximum
+    MatchAtMax,
+    /// no match up to the maximum
+    Forced,
+    /// the stream ended first
+    EndOfStream,
+}
+
+/// Same rule as [`chunk_ends`], annotated with the reason of every cut (used for vacuity
+/// counters: which paths of the rule an input actually drives).
+pub fn chunk_cuts(data: &[u8], target: usize) -> Vec<(usize, CutKind)> {
+    let p = chunk_params(target);
+    let t = &gearhash::DEFAULT_TABLE;
+    let skip = if p.min > 64 { p.min - 64 - 1 } else { 0 };
+    let mut out = Vec::new();
+    let mut start = 0usize;
+    while start < data.len() {
+        let mut h: u64 = 0;
+        let mut len = skip;
+        let mut kind = None;
+        loop {
+            if start + len >= data.len() {
+                len = data.len() - start;
+                kind = kind.or(Some(CutKind::EndOfStream));
+                break;
+            }
+            if len >= p.max {
+                kind = Some(CutKind::Forced);
+                break;
+            }
+            h = (h << 1).wrapping_add(t[data[start + len] as usize]);
+            len += 1;
+            if h & p.mask == 0 {
+                kind = Some(if len == p.max { CutKind::MatchAtMax } else { CutKind::Match });
+                break;
+            }
+        }
+        start += len;
+        out.push((start, kind.unwrap()));
+    }
+    out
 }
 
 pub fn chunk_list(data: &[u8], target: usize) -> Vec<(RH, u64)> {
